@@ -1366,7 +1366,9 @@ def trinterp(start, end, s=None):
             q1 = base.r2q(end)
             qr = base.slerp(q0, q1, s)
 
-        return base.q2r(qr)
+        # slerp divides by sin(theta): for nearly opposite quaternions (close
+        # poses either side of a half turn) its result is not quite unit
+        return base.q2r(base.unit(qr))
 
     elif base.ismatrix(end, (4, 4)):
         # SE(3) case
@@ -1388,7 +1390,7 @@ def trinterp(start, end, s=None):
             qr = base.slerp(q0, q1, s)
             pr = p0 * (1 - s) + s * p1
 
-        return base.rt2tr(base.q2r(qr), pr)
+        return base.rt2tr(base.q2r(base.unit(qr)), pr)
     else:
         return ValueError('Argument must be SO(3) or SE(3)')
 
